@@ -53,5 +53,55 @@ pub mod hs {
         + rsp_fed(b)
         + files_fed(files, fs, b.outs.ids@) + seq![Fed::Sep]
     }
+
+    pub open spec fn names_of(o: Option<Vec<String>>) -> Seq<String> { match o { Some(v) => v@, None => Seq::<String>::empty() } }
+    // --- C09: the discovered list a finished command leaves behind.  It is a function of the report alone
+    //     (ids, in report order) and of the declared dirtying inputs di -- the previous list does not occur.
+    pub open spec fn disc_list(ids: Seq<FileId>, di: Seq<FileId>) -> Seq<FileId> decreases ids.len() {
+        if ids.len() == 0 { Seq::<FileId>::empty() } else {
+            let p = disc_list(ids.drop_last(), di);
+            let x = ids.last();
+            if p.contains(x) || di.contains(x) { p } else { p.push(x) }
+        }
+    }
+    pub proof fn lemma_disc_step(ids: Seq<FileId>, x: FileId, di: Seq<FileId>)
+        ensures disc_list(ids.push(x), di) == (if disc_list(ids, di).contains(x) || di.contains(x) { disc_list(ids, di) } else { disc_list(ids, di).push(x) })
+    {
+        assert(ids.push(x).drop_last() =~= ids);
+        assert(ids.push(x).last() == x);
+    }
+    /// every reported file is either listed or a declared dirtying input; nothing else is listed; no duplicates
+    pub proof fn lemma_disc_list(ids: Seq<FileId>, di: Seq<FileId>)
+        ensures gs::no_dup(disc_list(ids, di)),
+            forall|f: FileId| #[trigger] disc_list(ids, di).contains(f) <==> ids.contains(f) && !di.contains(f),
+        decreases ids.len()
+    {
+        if ids.len() > 0 {
+            let p = disc_list(ids.drop_last(), di);
+            let x = ids.last();
+            lemma_disc_list(ids.drop_last(), di);
+            assert forall|f: FileId| #[trigger] disc_list(ids, di).contains(f) <==> ids.contains(f) && !di.contains(f) by {
+                if ids.contains(f) {
+                    let j = choose|j: int| 0 <= j < ids.len() && ids[j] == f;
+                    if j < ids.len() - 1 { assert(ids.drop_last()[j] == f); assert(ids.drop_last().contains(f)); }
+                }
+                if ids.drop_last().contains(f) {
+                    let j = choose|j: int| 0 <= j < ids.drop_last().len() && ids.drop_last()[j] == f;
+                    assert(ids[j] == f);
+                }
+                if !(p.contains(x) || di.contains(x)) {
+                    if p.push(x).contains(f) {
+                        let j = choose|j: int| 0 <= j < p.push(x).len() && p.push(x)[j] == f;
+                        if j < p.len() { assert(p[j] == f); assert(p.contains(f)); }
+                    }
+                    if p.contains(f) { let j = choose|j: int| 0 <= j < p.len() && p[j] == f; assert(p.push(x)[j] == f); }
+                    if f == x { assert(p.push(x)[p.len() as int] == x); assert(ids[ids.len() - 1] == x); }
+                } else {
+                    if f == x { assert(ids[ids.len() - 1] == x); }
+                }
+            }
+            if !(p.contains(x) || di.contains(x)) { gs::lemma_no_dup_push(p, x); }
+        }
+    }
     }
 }
